@@ -35,6 +35,26 @@ CHECKS["C20"] = dict(
     technique="Coq proof (refinement of the reload loops to a specification, induction over reload histories) + in-Coq differential correspondence against the real main loop",
     design="6/C20")
 
+QE_NOTE = "Trusted: Coq kernel + vm_compute; gen translator (schema from Objects.Tables on every run), harness (dataset generator, snapshot writer, response canonicaliser); own regex matcher for the generated RE2 subset, case folding on ASCII+Latin-1, floats as 3-decimal fixed point (stats compared with a 2^-40 relative tolerance). Requests outside the modelled fragment are counted as skipped in the evidence. Axioms: none."
+CHECKS["C04"] = dict(
+    text="Theorems (Coq, all datasets and requests): the contributing backends are exactly the configured ones selected by the Backends header (all without header) that hold data, each at most once even for repeated ids; the response rows are the concatenation, in configuration order, of the matching rows of exactly those backends; peer_key/peer_name cells are the backend's; the failed map holds exactly the unknown ids of the header and the selected backends without data. Stream: 1-4 generated backends, random subset down, every Backends header shape, all tables incl. sites, json and wrapped_json, compared in Coq.",
+    note=QE_NOTE, technique="Coq proof (characterisation of backend selection and failed map, union theorem via C01) + in-Coq differential correspondence", design="6/C04")
+CHECKS["C05"] = dict(
+    text="Theorems (Coq, all row lists / datasets / splits): a counter equals the number of selected rows satisfying its Stats expression under the literal semantics; sum/avg accumulate sum and count; min/max are the true extrema (negative values included); merging the accumulators of two row lists equals the accumulator of their concatenation (independence of the distribution over backends); the Stats response without group-by Columns is one line of the aggregates over all selected rows of all contributing backends. Group-by Columns and the grouping optimiser are covered by the correspondence stream (programs whose leading terms coincide incl. StatsOr/negated/nested/custom-variable shapes; the implementation runs its optimiser, the model never groups) and by C07's two-mode stream.",
+    note=QE_NOTE + " Proved for the un-grouped evaluation; the optimiser's equivalence is checked by correspondence only.",
+    technique="Coq proof (fold/accumulator algebra, split invariance, refinement of the merge to the aggregate over the union) + in-Coq differential correspondence", design="6/C05")
+CHECKS["C08"] = dict(
+    text="Theorems (Coq): the contact rule evaluated by isAuthorizedFor equals the declarative relation (host contact; service contact, or host contact under loose ServiceAuthorization); the group rule (loose: some member, strict: all members of a non-empty group); a row is returned iff it belongs to a contributing backend, satisfies the filters and passes the contact rule (soundness and completeness); Stats use the same selection; tables without contacts and requests without AuthUser are unaffected. Stream: generated contact assignments x 4 authorisation settings x all tables incl. by-group tables, data and Stats requests.",
+    note=QE_NOTE, technique="Coq proof (declarative characterisation of the contact rules, soundness+completeness of the selection) + in-Coq differential correspondence", design="6/C08")
+CHECKS["C11"] = dict(
+    text="Theorems (Coq, all histories of restart / count change / update cycles with a failure at any of the rebuild's table fetches): what is served is always nothing or one complete object set the backend really had (never a mixture); a completed rebuild serves the backend's current set; a failed rebuild leaves the backend reported failed or still serving the complete old set; after a restart and any faults one fault-free cycle reloads (refuted for the order of side effects of the pinned code, which the fix: commit changed). Stream: scripted backend restarts with changed object sets, FailAfter(k) for every k, recovery; all tables compared after every event, plus a concurrent reader.",
+    note="Trusted: Coq kernel + vm_compute; harness and scripted backend; goroutine scheduling of the parallel rebuild and 'during' observations are exercised, not proved. Axioms: none.",
+    technique="Coq proof (invariant over restart/fault histories) + in-Coq differential correspondence against a real Peer and a scripted backend", design="6/C11")
+CHECKS["C12"] = dict(
+    text="Theorems (Coq, all histories of add/remove/reorder/update): after an update run the cached comments/downtimes equal the backend's entries with all columns; every difference of the id sets is detected under monotone ids (also for out-of-order appended caches, removing the newest, emptying the table); every host's and service's id lists and *_with_info rows are exactly the attached entries. Stream: generated histories against a scripted backend with shuffled reply order, GET comments/downtimes and hosts/services list columns after every step.",
+    note="Trusted: Coq kernel + vm_compute; harness and scripted backend. Axioms: none.",
+    technique="Coq proof (invariant over add/remove histories) + in-Coq differential correspondence against a real Peer and a scripted backend", design="6/C12")
+
 NOT_APPLICABLE = {}
 
 
